@@ -141,8 +141,8 @@ for _p in ["C08", "C09", "C11", "C13"]:
     PROPS[_p] = {"level": "model_checking", "conc": True, "assumptions": _A}
 PROPS["C18"] = {"level": "fault_enumeration", "conc": True, "assumptions": _A + ["panics of RefCnt::inc/clone of third-party pointer types are out of scope"]}
 PROPS["C16"] = {"level": "exploration", "conc": True, "assumptions": _A}
-CONC_PLAN["quick"] += [("panic_help", 400), ("help2w", 2500), ("aba", 500)]
-CONC_PLAN["thorough"] += [("panic_help", 4000), ("help2w", 40000), ("aba", 5000)]
+CONC_PLAN["quick"] += [("panic_help", 400), ("help2w", 2500), ("aba", 500), ("adv", 150), ("solo", 1500), ("solo2c", 300)]
+CONC_PLAN["thorough"] += [("panic_help", 4000), ("help2w", 40000), ("aba", 5000), ("adv", 1500), ("solo", 20000), ("solo2c", 3000)]
 
 NOT_APPLICABLE = {}
 MANIFEST_TEXT = {
